@@ -1663,6 +1663,9 @@ class Interp:
             out.tags = out.tags | {"unit"}
         if isinstance(op, (ast.Add, ast.Sub)) and ("world3" in l.tags or "world3" in r.tags) and out.kind in ("arr", "unknown"):
             out.tags = out.tags | {"world3"}
+        if isinstance(op, (ast.Mult, ast.Div)) and "world3" in l.tags and "world3" not in r.tags and "orth" not in r.tags and out.kind in ("arr", "unknown") \
+                and (r.kind in ("float", "int") or "norm" in r.tags or isinstance(op, ast.Div)):
+            out.tags = out.tags | {"world3"}            # a world-frame vector scaled (normalised) is a world-frame vector
         if (rl or rr) and out.kind == "arr" and (not rl or not rr or rl == rr):
             out.tags = out.tags | (rl or rr)      # elementwise arithmetic (broadcast against a row / scalar) keeps the row count
         bt = batch_tag(l, r)
